@@ -353,6 +353,8 @@ class SpecEval:
             return VBool(self.boolean(e.args[0]) == self.boolean(e.args[1]))
         if fn == 'len':
             v = self.seqify(self.ev(e.args[0]))
+            if isinstance(v, VRef) and type(self.heap()[v.addr]).__name__ == 'HBuf':
+                return VInt(z3.Length(self.heap()[v.addr].seq))
             if isinstance(v, VRef):
                 raise Undecided('spec: len of ' + repr(self.heap()[v.addr]))
             return self.I.length(v)
@@ -562,6 +564,9 @@ class VExec(Exec):
                 return v
             if isinstance(h, HSymSet):
                 h.dom = self.fresh(name, z3.ArraySort(Val, smt.Bool))
+                return v
+            if isinstance(h, HBuf):
+                h.seq = self.fresh(name, smt.Bytes)
                 return v
             if isinstance(h, HSymDict):
                 h.dom = self.fresh(name + '_dom', h.dom.sort())
